@@ -72,6 +72,35 @@ Theorem C15_handshake_deadline : forall es c, wf_conn c -> (ph c = PEnc \/ ph c 
   HandshakeTimeoutSec - age c <= ticks es -> ph (Session.run c es) <> PEnc /\ ph (Session.run c es) <> PProto.
 Proof. exact handshake_deadline. Qed.
 
+(* the deadline component of the life cycle: no state before "peer added" lasts longer than the handshake timeout -
+   whatever the remote side sends (handshake messages, garbage, bytes that complete nothing) at whatever pace, a
+   connection is not in the encryption or the protocol handshake any more once HandshakeTimeoutSec seconds have passed
+   since the accept: the pending slot is given back *)
+Theorem C15_no_pre_peer_state_outlasts_handshake_timeout : forall es, HandshakeTimeoutSec <= ticks es ->
+  ph (Session.run fresh es) <> PEnc /\ ph (Session.run fresh es) <> PProto.
+Proof. exact no_pre_peer_state_outlasts_timeout. Qed.
+
+(* a connection that only stalls in a handshake phase (silence, a partial auth message, half a frame, bytes trickled one
+   at a time) is closed exactly when the timeout has passed - not later and not earlier - and stays in its phase till then *)
+Theorem C15_stalled_handshake_closed_exactly_at_the_timeout : forall es c, wf_conn c -> (ph c = PEnc \/ ph c = PProto) ->
+  Forall stalls es ->
+  (ph (Session.run c es) = PClosed <-> HandshakeTimeoutSec - age c <= ticks es) /\
+  (ph (Session.run c es) <> PClosed -> ph (Session.run c es) = ph c).
+Proof. exact stalled_closed_iff. Qed.
+
+(* the deadline of the protocol handshake is load-bearing: in the life cycle without it (deadline armed for the encryption
+   handshake only) a peer that completes the encryption handshake and stays silent holds its slot for ever *)
+Theorem C15_proto_handshake_deadline_is_load_bearing : forall n a,
+  ph (run_nodl (mkConn PProto a 0) (repeat Tick n)) = PProto.
+Proof. intros n a. exact (proto_deadline_is_load_bearing n a). Qed.
+
+Example C15_stalled_examples :
+  ph (Session.run fresh [Recv FProgress; Recv FPartial; Tick; Tick; Recv FPartial; Tick; Tick]) = PProto /\
+  ph (Session.run fresh [Recv FProgress; Recv FPartial; Tick; Tick; Recv FPartial; Tick; Tick; Tick]) = PClosed /\
+  ph (Session.run fresh [Tick; Recv FProgress; Tick; Recv FProgress; Tick; Recv FStatusOk]) = PRunning /\
+  ph (run_nodl fresh [Recv FProgress; Tick; Tick; Tick; Tick; Tick; Tick; Tick]) = PProto.
+Proof. repeat split; reflexivity. Qed.
+
 (* holding a connection open (also in the status wait, which has no deadline of its own) costs the peer at least one
    frame per FrameReadTimeoutSec seconds *)
 Theorem C15_open_needs_frames : forall es c, wf_conn c -> (ph c = PWaitStatus \/ ph c = PRunning) ->
